@@ -337,6 +337,8 @@ class Driver(object):
             elif r < 0.25:
                 ps.append(u.prefix())
             wid = w if rng.random() < 0.9 else w + 1
+            if rng.random() < self.profile.get("unchecked", 0.15):
+                return {"op": "DeleteWeNC", "id": wid, "ps": ps}
             return {"op": name, "id": wid, "ps": ps}
         if name == "AddPrefix":
             wid = rng.choice(ids) if ids and rng.random() < 0.85 else rng.randrange(1, 6)
